@@ -94,6 +94,7 @@ struct Emit
 {
     int fd = -1;
     long idx = 0, skip = 0;
+    long confirm_idx = -1;      // case that hit its watchdog in the previous incarnation: re-run with a 15x limit before it is called a hang
     std::string cur;
     std::map<std::string, long> cnt;
     bool active = false;
@@ -118,6 +119,8 @@ struct Emit
         line("B\t" + std::to_string(my) + "\t" + esc(id) + "\n");
         return true;
     }
+    // per-case watchdog limit (seconds) of the case begun last; a wall-clock expiry can be load, so it is confirmed once with a longer limit
+    int case_limit(int base) const { return (idx - 1 == confirm_idx) ? base * 15 : base; }
     void fail(std::string const& sig, std::string const& detail = "") { fail_id(cur, sig, detail); }
     void fail_id(std::string const& id, std::string const& sig, std::string const& detail = "")
     {
@@ -147,7 +150,7 @@ struct Emit
 template <class Body>
 inline void run_unit(vh::Ctx& ctx, std::string const& unit, Body body, double limit_s = 120.0)
 {
-    long skip = 0;
+    long skip = 0, confirm_idx = -1; int confirmed_hangs = 0;
     for (int incarnation = 0; incarnation < 4000; ++incarnation)
     {
         int fd[2];
@@ -164,7 +167,7 @@ inline void run_unit(vh::Ctx& ctx, std::string const& unit, Body body, double li
             it.it_value.tv_sec = us / 1000000; it.it_value.tv_usec = us % 1000000;
             setitimer(ITIMER_REAL, &it, nullptr);
             vh::san().pending.clear();
-            Emit e; e.fd = fd[1]; e.skip = skip;
+            Emit e; e.fd = fd[1]; e.skip = skip; e.confirm_idx = confirm_idx;
             int rc = 0;
             try { body(e); }
             catch (std::exception const& ex) { e.fail_id(e.active ? e.cur : unit, "harness:uncaught-exception", ex.what()); rc = 0; }
@@ -182,7 +185,11 @@ inline void run_unit(vh::Ctx& ctx, std::string const& unit, Body body, double li
             std::vector<std::string> f; size_t p = 0;
             while (true) { size_t q = ln.find('\t', p); if (q == std::string::npos) { f.push_back(ln.substr(p)); break; } f.push_back(ln.substr(p, q - p)); p = q + 1; }
             if (f[0] == "B" && f.size() >= 3) { curidx = atol(f[1].c_str()); cur = f[2]; in_case = true; ctx.cur = unit + " :: " + cur; }
-            else if (f[0] == "E") { ++ctx.evaluations; if (f.size() > 1 && f[1] == "1") ++ctx.nontrivial; in_case = false; }
+            else if (f[0] == "E")
+            {
+                ++ctx.evaluations; if (f.size() > 1 && f[1] == "1") ++ctx.nontrivial; in_case = false;
+                if (curidx == confirm_idx) ++ctx.counters["watchdog_expiry_not_confirmed_with_15x_limit"];
+            }
             else if (f[0] == "F" && f.size() >= 3) ctx.fail(f[1], f[2], f.size() > 3 ? f[3] : "");
             else if (f[0] == "C" && f.size() >= 3)
             {
@@ -218,7 +225,17 @@ inline void run_unit(vh::Ctx& ctx, std::string const& unit, Body body, double li
             ctx.exhaustive = false;
             return;
         }
-        ctx.fail(cur, status, "process died inside this case; unit resumed after it");
+        if (status == "timeout" && confirm_idx != curidx && confirmed_hangs < 3)
+        {
+            // the wall-clock watchdog fired once: run this case again, first in a fresh worker, with a 15x limit; only a second expiry is a hang
+            ++ctx.counters["watchdog_expiries_rechecked"];
+            confirm_idx = curidx; skip = curidx;
+            continue;
+        }
+        if (status == "timeout" && confirm_idx == curidx) ++confirmed_hangs;
+        ctx.fail(cur, status, status != "timeout" ? "process died inside this case; unit resumed after it"
+                              : confirm_idx == curidx ? "watchdog fired twice (second time with a 15x limit, case first in a fresh worker); unit resumed after it"
+                              : "watchdog fired; not re-run with a longer limit because three hangs of this unit were already confirmed that way");
         ++ctx.evaluations; ++ctx.nontrivial;
         ++ctx.counters["unit_restarts"];
         skip = curidx + 1;
